@@ -303,14 +303,18 @@ bool exec_str_b(Ctx &c, const Op &op) {
         note_sig(c, op, std::string("obj=") + cl(x));
         c.budget_bytes = x->model.size();
         as_const(x);
-        bool ok = true;
+        bool ok = true, same_as_fresh = true;
+        // the hash is an observation of the value: an object with this history must hash like a string freshly built from the same bytes
+        TempStr fresh(x->model);
         ExcKind ex = run_sut(c, op, [&] {
             size_t h1 = ST::hash()(*x->p()), h2 = std::hash<ST::string>()(*x->p()), h3 = ST::hash()(*x->p());
-            (void)ST::hash_i()(*x->p());
+            size_t i1 = ST::hash_i()(*x->p());
             if (h1 != h2 || h1 != h3) ok = false;
+            if (x->st == M_DEFINITE && (h1 != ST::hash()(*fresh.p) || i1 != ST::hash_i()(*fresh.p) || !(*x->p() == *fresh.p))) same_as_fresh = false;
         });
         settle(c, op, ex, 0);
         if (!ok) set_viol(c, "value_mismatch", "hash of an unchanged string changed between two calls");
+        else if (!same_as_fresh) set_viol(c, "value_mismatch", "the string does not hash (or compare) like a string freshly built from the same bytes");
         return true;
     }
     case S_TO_NUM: {
@@ -506,15 +510,18 @@ bool exec_str_b(Ctx &c, const Op &op) {
         bool nothing = m.empty() || (!std::strchr(cs, m.front()) && !std::strchr(cs, m.back()));
         if (nothing && !m.empty() && m.front() && m.back()) probe(c, PR_RESULT_EQUALS_SOURCE);
         void *mem = obj_alloc(sizeof(S));
+        const bool rv = (op.b & 0x18) == 0x18;      // rvalue receiver, see S_CASE
+        if (rv) { x->role = ROLE_NONE; as_rvalue(x); note_mutating(c, x); }
         ExcKind ex = run_sut(c, op, [&] {
             const S &s = *x->p();
+            if (rv) { switch (which) { case 0: FRESH(S, std::move(*x->p()).trim(cs)); break; case 1: FRESH(S, std::move(*x->p()).trim_left(cs)); break; default: FRESH(S, std::move(*x->p()).trim_right(cs)); break; } return; }
             switch (which) {
             case 0: FRESH(S, dflt ? s.trim() : s.trim(cs)); break;
             case 1: FRESH(S, dflt ? s.trim_left() : s.trim_left(cs)); break;
             default: FRESH(S, dflt ? s.trim_right() : s.trim_right(cs)); break;
             }
         });
-        if (settle(c, op, ex, 0)) new_str_result(c, mem, x); else obj_free(mem);
+        if (settle(c, op, ex, 0)) { new_str_result(c, mem, rv ? nullptr : x); if (rv) { x->st = M_ADOPT; x->moved_from = true; } } else obj_free(mem);
         return true;
     }
     case S_BEFORE_AFTER: {
@@ -548,12 +555,18 @@ bool exec_str_b(Ctx &c, const Op &op) {
     case S_CASE: {
         StrObj *x = pick(v, op.a);
         if (!x) { c.skipped = true; return true; }
-        note_sig(c, op, std::string("obj=") + cl(x));
+        // (op.b & 6) == 6: the receiver is handed over as an rvalue - std::move(s).to_upper().  An rvalue-qualified overload may consume the receiver
+        // (then it is a move applied to that object: valid, value unspecified), but what comes back must still be a value, not a reference into it
+        const bool rv = (op.b & 6) == 6;
+        note_sig(c, op, std::string("obj=") + cl(x) + (rv ? ",rvalue_receiver" : ""));
         c.budget_bytes = x->model.size() * 4;
-        as_const(x);
+        if (rv) { as_rvalue(x); note_mutating(c, x); } else as_const(x);
         void *mem = obj_alloc(sizeof(S));
-        ExcKind ex = run_sut(c, op, [&] { FRESH(S, (op.b & 1) ? x->p()->to_upper() : x->p()->to_lower()); });
-        if (settle(c, op, ex, 0)) new_str_result(c, mem, x); else obj_free(mem);
+        ExcKind ex = run_sut(c, op, [&] {
+            if (rv) { if (op.b & 1) FRESH(S, std::move(*x->p()).to_upper()); else FRESH(S, std::move(*x->p()).to_lower()); }
+            else FRESH(S, (op.b & 1) ? x->p()->to_upper() : x->p()->to_lower());
+        });
+        if (settle(c, op, ex, 0)) { new_str_result(c, mem, rv ? nullptr : x); if (rv) { x->st = M_ADOPT; x->moved_from = true; } } else obj_free(mem);
         return true;
     }
     case S_REPLACE: {
